@@ -32,7 +32,7 @@ class Timer:
         try:
             with open(start_time_path) as f:
                 float(f.read())
-        except FileNotFoundError:
+        except (FileNotFoundError, ValueError):
             start = time.time()
             with open(start_time_path, "w+") as f:
                 f.write(str(start))
@@ -74,6 +74,8 @@ class Timer:
             with open(
                     self.timer_path / ".time", "r"
             ) as f:
-                return f.read()
-        except FileNotFoundError:
+                time_ = f.read()
+            float(time_)
+            return time_
+        except (FileNotFoundError, ValueError):
             return None
